@@ -224,7 +224,7 @@ Section RP.
   Variable primes : list N.
   Variables num den : N.
   Variable owns : N -> list N.
-  Variable spawns : N -> list (N * bool).
+  Variable spawns : N -> list dact.
   Variables rem_fin null_first : bool.
   Hypothesis swap_le : forall j p, swap j p = true -> p <= j.
   Hypothesis swap_ge : forall j p, swap j p = false -> j <= p.
@@ -536,7 +536,7 @@ Section RP.
   Variable olist : list N.
   Hypothesis olist_nodup : NoDup olist.
   Hypothesis owns_olist : forall q t, In t (owns q) -> In t olist.
-  Hypothesis spawns_olist : forall q p r, In (p, r) (spawns q) -> ~ In p olist.
+  Hypothesis spawns_olist : forall q p r, In (p, r) (map dact_pair (spawns q)) -> ~ In p olist.
 
   Lemma is_reg_spec l a : is_reg l a = true <-> exists e, Holds l e /\ ptr e = a.
   Proof.
@@ -837,21 +837,18 @@ Section RP.
     destruct (pending g3); [destruct (mitems g3 <? nitems g3)|]; eexists; (split; [reflexivity|]); apply Hfin; auto.
   Qed.
 
-  Lemma fold_spawn_ok : forall ps g, Inv g -> (forall pr, In pr ps -> ~ In (fst pr) olist) ->
-    exists g', fold_left (fun og pr => match og with Some g1 => spawn_set' g1 pr | None => None end) ps (Some g) = Some g'
-               /\ Inv g' /\ Le g' g /\ length (pending g') = length (pending g).
-  Proof.
-    induction ps as [|pr ps IH]; intros g Hi Hps; simpl.
-    - exists g. split; [reflexivity|]. split; [assumption|split; [apply Le_refl|reflexivity]].
-    - destruct (spawn_set_ok g pr Hi (Hps pr (or_introl eq_refl))) as [g1 [H1 [Hi1 [Hl1 Hp1]]]]. rewrite H1.
-      destruct (IH g1 Hi1) as [g2 [H2 [Hi2 [Hl2 Hp2]]]]; [intros; apply Hps; right; assumption|].
-      exists g2. split; [exact H2|]. split; [assumption|split; [eapply Le_trans; eauto|congruence]].
-  Qed.
-
   (* ---------------------------------------------------------------- removal, nested *)
   Local Notation gc_rem' := (gc_rem hashf swap primes num den owns spawns rem_fin).
 
-  Definition rem_good (f : nat) : Prop := forall g p, Inv g -> measureO g + extra p < f ->
+  (* a destructor that does nothing *)
+  Definition leaf (p : N) : Prop := owns p = [] /\ spawns p = [].
+
+  (* enough nesting fuel: more than the live owned addresses (+1 for an address outside olist),
+     or any fuel at all for an object whose destructor does nothing *)
+  Definition fuel_ok (f : nat) (g : gc) (p : N) : Prop :=
+    measureO g + extra p < f \/ (leaf p /\ 0 < f).
+
+  Definition rem_good (f : nat) : Prop := forall g p, Inv g -> fuel_ok f g p ->
     exists g', gc_rem' f g p = Some g' /\ Inv g' /\ Le g' g /\
                length (pending g') = length (pending g).
 
@@ -865,25 +862,62 @@ Section RP.
     intros Hg. induction ts as [|t ts IH]; intros g Hts Hi Hm; simpl.
     - exists g. split; [reflexivity|]. split; [assumption|split; [apply Le_refl|reflexivity]].
     - destruct (Hg g t Hi) as [g1 [H1 [Hi1 [Hl1 Hp1]]]].
-      { rewrite (extra_in t (Hts t (or_introl eq_refl))). lia. }
+      { left. rewrite (extra_in t (Hts t (or_introl eq_refl))). lia. }
       rewrite H1. pose proof (Le_measure _ _ Hl1).
       destruct (IH g1) as [g2 [H2 [Hi2 [Hl2 Hp2]]]]; auto; [intros; apply Hts; right; assumption|lia|].
       exists g2. split; [exact H2|]. split; [assumption|split; [eapply Le_trans; eauto|congruence]].
   Qed.
 
-  Lemma finalise_ok f : rem_good f -> forall g q, Inv g -> measureO g < f ->
+  Local Notation act_set' := (act_set hashf swap primes num den owns spawns).
+
+  (* one allocation of a destructor; a temporary is deleted again by a nested GC_Rem, for which
+     any positive fuel is enough because its own destructor does nothing *)
+  Lemma act_set_ok f : rem_good f -> 0 < f -> forall g a, Inv g -> ~ In (fst (dact_pair a)) olist ->
+    exists g', act_set' (gc_rem' f) g a = Some g' /\ Inv g' /\ Le g' g /\ length (pending g') = length (pending g).
+  Proof.
+    intros Hg Hf g a Hi Hno. destruct a as [p r|p r]; simpl in Hno; unfold act_set.
+    - apply spawn_set_ok; assumption.
+    - unfold temp_set. cbn [fst].
+      destruct (owns p) eqn:Ho; [|exists (log g EvViol); split; [reflexivity|]; split; [apply Inv_log_viol; assumption|];
+                                  split; [intros a _ Ha; exact Ha|reflexivity]].
+      destruct (spawns p) eqn:Hs; [|exists (log g EvViol); split; [reflexivity|]; split; [apply Inv_log_viol; assumption|];
+                                   split; [intros a _ Ha; exact Ha|reflexivity]].
+      destruct (spawn_set_ok g (p, r) Hi Hno) as [g1 [H1 [Hi1 [Hl1 Hp1]]]]. rewrite H1.
+      destruct (is_reg (slots g1) p && negb (is_reg (slots g) p)).
+      + destruct (Hg g1 p Hi1) as [g2 [H2 [Hi2 [Hl2 Hp2]]]].
+        { right. split; [split; assumption|exact Hf]. }
+        exists g2. split; [exact H2|]. split; [assumption|split; [eapply Le_trans; eauto|congruence]].
+      + exists g1. auto.
+  Qed.
+
+  Lemma fold_act_ok f : rem_good f -> 0 < f -> forall acts g, Inv g ->
+    (forall a, In a acts -> ~ In (fst (dact_pair a)) olist) ->
+    exists g', fold_left (fun og a => match og with Some g1 => act_set' (gc_rem' f) g1 a | None => None end) acts (Some g) = Some g'
+               /\ Inv g' /\ Le g' g /\ length (pending g') = length (pending g).
+  Proof.
+    intros Hg Hf. induction acts as [|a acts IH]; intros g Hi Hps; simpl.
+    - exists g. split; [reflexivity|]. split; [assumption|split; [apply Le_refl|reflexivity]].
+    - destruct (act_set_ok f Hg Hf g a Hi (Hps a (or_introl eq_refl))) as [g1 [H1 [Hi1 [Hl1 Hp1]]]]. rewrite H1.
+      destruct (IH g1 Hi1) as [g2 [H2 [Hi2 [Hl2 Hp2]]]]; [intros; apply Hps; right; assumption|].
+      exists g2. split; [exact H2|]. split; [assumption|split; [eapply Le_trans; eauto|congruence]].
+  Qed.
+
+  Lemma finalise_ok f : rem_good f -> forall g q, Inv g -> (measureO g < f \/ leaf q) ->
     exists g', finalise_with hashf swap primes num den owns spawns (gc_rem' f) g q = Some g' /\ Inv g' /\ Le g' g /\
                length (pending g') = length (pending g).
   Proof.
-    intros Hg g q Hi Hm. unfold finalise_with.
-    destruct (fold_rem_ok f Hg (owns q) (log g (EvFin q))) as [g1 [H1 [Hi1 [Hl1 Hp1]]]].
-    - intros t Ht. eapply owns_olist; eauto.
-    - apply Inv_log_fin; assumption.
-    - exact Hm.
-    - rewrite H1. destruct (fold_spawn_ok (spawns q) g1 Hi1) as [g2 [H2 [Hi2 [Hl2 Hp2]]]].
-      + intros [p r] Hin. simpl. eapply spawns_olist; eauto.
-      + exists g2. split; [exact H2|]. split; [assumption|]. split; [|simpl in *; congruence].
-        eapply Le_trans; [exact Hl2|]. intros a Ha Hl. apply Hl1; assumption.
+    intros Hg g q Hi Hm. unfold finalise_with. destruct Hm as [Hm|[Ho Hs]].
+    - destruct (fold_rem_ok f Hg (owns q) (log g (EvFin q))) as [g1 [H1 [Hi1 [Hl1 Hp1]]]].
+      + intros t Ht. eapply owns_olist; eauto.
+      + apply Inv_log_fin; assumption.
+      + exact Hm.
+      + rewrite H1. destruct (fold_act_ok f Hg ltac:(lia) (spawns q) g1 Hi1) as [g2 [H2 [Hi2 [Hl2 Hp2]]]].
+        * intros a Hin. destruct (dact_pair a) as [p r] eqn:Hd. simpl. apply (spawns_olist q p r).
+          rewrite <- Hd. apply in_map. assumption.
+        * exists g2. split; [exact H2|]. split; [assumption|]. split; [|simpl in *; congruence].
+          eapply Le_trans; [exact Hl2|]. intros a Ha Hl. apply Hl1; assumption.
+    - rewrite Ho, Hs. simpl. exists (log g (EvFin q)). split; [reflexivity|]. split; [apply Inv_log_fin; assumption|].
+      split; [intros a _ Ha; exact Ha|reflexivity].
   Qed.
 
   (* GC_Rem_Ptr, after the event has been logged *)
@@ -915,7 +949,7 @@ Section RP.
     end.
   Proof. reflexivity. Qed.
 
-  Lemma rem_ptr_ok f : rem_good f -> forall g p, Inv g -> measureO g + extra p < S f ->
+  Lemma rem_ptr_ok f : rem_good f -> forall g p, Inv g -> fuel_ok (S f) g p ->
     exists g2, rem_ptr f (log g (EvRem p)) p = Some g2 /\ Inv g2 /\ Le g2 g /\
                length (pending g2) = length (pending g).
   Proof.
@@ -933,14 +967,15 @@ Section RP.
       assert (Habs0 : HAbsent (slots g) p -> Inv g0).
       { intros Ha. apply (Inv_rem_absent g g0 p Hi Ha); try reflexivity. intros q. simpl. apply null_out_in. }
       (* once p is gone from table and pending list, one owned address less is live *)
-      assert (Hdec : forall g1, Le g1 g -> live g p = true -> live g1 p = false -> measureO g1 < f).
-      { intros g1 Hl1 Hlp Hlp1. unfold extra in Hm. destruct (in_dec N.eq_dec p olist) as [Hin|Hnin].
+      assert (Hdec : forall g1, Le g1 g -> live g p = true -> live g1 p = false -> measureO g1 < f \/ leaf p).
+      { intros g1 Hl1 Hlp Hlp1. destruct Hm as [Hm|[Hlf _]]; [left|right; exact Hlf].
+        unfold extra in Hm. destruct (in_dec N.eq_dec p olist) as [Hin|Hnin].
         - pose proof (Lt_measure g1 g p Hl1 Hin Hlp Hlp1). lia.
         - pose proof (Le_measure _ _ Hl1). lia. }
       cbv zeta. destruct (is_pending p (pending g) && rem_fin) eqn:Hhit.
       + apply andb_prop in Hhit. destruct Hhit as [Hhit _].
         assert (Ha : HAbsent (slots g) p) by (apply (inv_pend g H); apply is_pending_in; assumption).
-        assert (Hm1 : measureO g0 < f).
+        assert (Hm1 : measureO g0 < f \/ leaf p).
         { apply Hdec; [exact Hl0|unfold live; rewrite Hhit; apply orb_true_r|].
           unfold live. simpl. rewrite null_out_not_pending.
           destruct (is_reg (slots g) p) eqn:Hr; [|reflexivity].
@@ -966,7 +1001,7 @@ Section RP.
             - intros q. simpl. apply null_out_in. }
           assert (Hl1 : Le g1 g).
           { apply Le_sub; [intros x Hx; left; apply Hh1 in Hx; tauto|]. intros q. simpl. apply null_out_in. }
-          assert (Hm1 : measureO g1 < f).
+          assert (Hm1 : measureO g1 < f \/ leaf p).
           { apply Hdec; [exact Hl1| |].
             - unfold live. apply orb_true_iff. left. apply is_reg_spec. exists e. split; [exists i, (home p (length (slots g))); exact Hat|exact Hpe].
             - unfold live. simpl. rewrite null_out_not_pending.
@@ -980,7 +1015,7 @@ Section RP.
 
   Theorem gc_rem_ok : forall f, rem_good f.
   Proof.
-    induction f as [|f IH]; intros g p Hi Hm; [lia|]. rewrite gc_rem_S.
+    induction f as [|f IH]; intros g p Hi Hm; [destruct Hm as [Hm|[_ Hm]]; lia|]. rewrite gc_rem_S.
     destruct (running g); cbn [negb].
     - destruct (rem_ptr_ok f IH g p Hi Hm) as [g1 [H1 [Hi1 [Hl1 Hp1]]]]. rewrite H1.
       destruct (resize_less_ok g1 Hi1) as [l' [Hr [Hi2 Hh2]]]. rewrite Hr.
@@ -1012,7 +1047,7 @@ Section RP.
           - simpl. apply upd_opt_length. }
         destruct H1 as [Hi1 [Hl1 Hp1]]. pose proof (Le_measure _ _ Hl1).
         unfold finalise.
-        destruct (finalise_ok d Hg g1 q Hi1 ltac:(lia)) as [g2 [H2 [Hi2 [Hl2 Hp2]]]]. rewrite H2.
+        destruct (finalise_ok d Hg g1 q Hi1 ltac:(left; lia)) as [g2 [H2 [Hi2 [Hl2 Hp2]]]]. rewrite H2.
         pose proof (Le_measure _ _ Hl2).
         destruct (IH (S k) g2 Hi2 ltac:(lia)) as [g3 [H3 [Hi3 [Hl3 Hp3]]]].
         exists g3. split; [exact H3|]. split; [assumption|]. split; [|congruence].
@@ -1170,12 +1205,12 @@ Section RP.
     - destruct (gc_set_ok g p r ws Hi Hq Ha) as [g' [Hs [Hi' Hq']]]. rewrite Hs.
       exists g', OOk. split; [reflexivity|]. split; [discriminate|]. split; [discriminate|].
       split; [assumption|]. split; [assumption|]. intros p0 Heq; discriminate.
-    - destruct (gc_rem_ok (depth g) g p Hi (Hm p)) as [g' [Hs [Hi' [_ Hp']]]]. rewrite Hs.
+    - destruct (gc_rem_ok (depth g) g p Hi (or_introl (Hm p))) as [g' [Hs [Hi' [_ Hp']]]]. rewrite Hs.
       exists g', OOk. split; [reflexivity|]. split; [discriminate|]. split; [discriminate|].
       split; [assumption|]. split; [|intros p0 Heq; discriminate].
       unfold Quiet in *. rewrite Hq in Hp'. destruct (pending g'); [reflexivity|discriminate].
     - unfold finalise.
-      destruct (finalise_ok (depth g) (gc_rem_ok (depth g)) g p Hi ltac:(lia)) as [g' [Hs [Hi' [_ Hp']]]]. rewrite Hs.
+      destruct (finalise_ok (depth g) (gc_rem_ok (depth g)) g p Hi ltac:(left; lia)) as [g' [Hs [Hi' [_ Hp']]]]. rewrite Hs.
       exists g', OOk. split; [reflexivity|]. split; [discriminate|]. split; [discriminate|].
       split; [assumption|]. split; [|intros p0 Heq; discriminate].
       unfold Quiet in *. rewrite Hq in Hp'. destruct (pending g'); [reflexivity|discriminate].
@@ -1222,12 +1257,12 @@ Proof. unfold gc_swap. intros H. bdestr; lia. Qed.
 
 (* what destructors do: the addresses they delete, the (address, root flag) they allocate
    afterwards, and a finite list bounding what may be deleted *)
-Record dtors := mkD { d_owns : N -> list N; d_spawns : N -> list (N * bool); d_olist : list N }.
+Record dtors := mkD { d_owns : N -> list N; d_spawns : N -> list dact; d_olist : list N }.
 
 (* no destructor allocates an address that a destructor may delete *)
 Definition dtors_ok (d : dtors) : Prop :=
   NoDup (d_olist d) /\ (forall q t, In t (d_owns d q) -> In t (d_olist d)) /\
-  (forall q p r, In (p, r) (d_spawns d q) -> ~ In p (d_olist d)).
+  (forall q p r, In (p, r) (map dact_pair (d_spawns d q)) -> ~ In p (d_olist d)).
 
 Definition Gstep (hashf : N -> N) (d : dtors) (rf nf : bool) :=
   gc_step hashf gc_swap gc_primes gc_load_num gc_load_den (d_owns d) (d_spawns d) rf nf.
@@ -1241,6 +1276,8 @@ Definition Grem (hashf : N -> N) (d : dtors) (rf : bool) :=
   gc_rem hashf gc_swap gc_primes gc_load_num gc_load_den (d_owns d) (d_spawns d) rf.
 Definition Gspawn (hashf : N -> N) :=
   spawn_set hashf gc_swap gc_primes gc_load_num gc_load_den.
+Definition Gact (hashf : N -> N) (d : dtors) (rf : bool) (f : nat) :=
+  act_set hashf gc_swap gc_primes gc_load_num gc_load_den (d_owns d) (d_spawns d) (Grem hashf d rf f).
 
 Theorem registry_step_thm : forall hashf d rf nf g o, dtors_ok d ->
   Inv hashf g -> Quiet g -> admissible g o ->
@@ -1323,7 +1360,7 @@ Proof.
   intros hashf d rf g p f [H1 [H2 H3]] Hi Hf.
   destruct (gc_rem_ok hashf gc_swap gc_primes gc_load_num gc_load_den (d_owns d) (d_spawns d) rf
               gc_swap_le gc_swap_ge gc_ideal_gt (d_olist d) H2 H3 f g p Hi) as [g' [Hr [Hi' [_ Hp']]]].
-  - destruct Hi as [Hm _]. pose proof (measureO_bound hashf (d_olist d) H1 g Hm) as Hb.
+  - left. destruct Hi as [Hm _]. pose proof (measureO_bound hashf (d_olist d) H1 g Hm) as Hb.
     unfold depth in Hf. unfold extra. destruct (in_dec N.eq_dec p (d_olist d)); lia.
   - exists g'. auto.
 Qed.
@@ -1356,6 +1393,23 @@ Proof.
       destruct (resize_more hashf gc_swap gc_primes gc_load_num gc_load_den _) as [g2|]; [|discriminate].
       destruct (nslots g2 =? 0); [discriminate|]. destruct (rh_insert gc_swap _ _ _) as [[sl b]|]; [|discriminate].
       injection H3' as <-. simpl. discriminate.
+Qed.
+
+(* any allocation of a destructor — an object that stays, or a temporary that is deleted again
+   inside the same destructor (possibly at an address finalised and released earlier in the same
+   sweep) — in any state with the invariant, pending list not required empty: total with any
+   positive nesting fuel, invariant kept, pending list untouched in length *)
+Theorem destructor_action_thm : forall hashf d rf g a f, dtors_ok d ->
+  Inv hashf g -> 0 < f -> ~ In (fst (dact_pair a)) (d_olist d) ->
+  exists g', Gact hashf d rf f g a = Some g' /\ Inv hashf g' /\
+             length (pending g') = length (pending g).
+Proof.
+  intros hashf d rf g a f [H1 [H2 H3]] Hi Hf Hno.
+  destruct (act_set_ok hashf gc_swap gc_primes gc_load_num gc_load_den (d_owns d) (d_spawns d) rf
+              gc_swap_le gc_swap_ge gc_ideal_gt (d_olist d) f
+              (gc_rem_ok hashf gc_swap gc_primes gc_load_num gc_load_den (d_owns d) (d_spawns d) rf
+                 gc_swap_le gc_swap_ge gc_ideal_gt (d_olist d) H2 H3 f) Hf g a Hi Hno) as [g' [Ha [Hi' [_ Hp']]]].
+  exists g'. auto.
 Qed.
 
 (* the executable ledger used as the oracle of the correspondence check is `led` *)
@@ -1415,9 +1469,9 @@ Definition ex_owns (p : N) : list N :=
    destructors delete a pending object and the marked survivor 24 from inside the sweep, an
    explicit deletion, re-use of a freed address, a root *)
 (* the destructor of 8 also allocates a managed object at 4096 (outside the address window so
-   far, home colliding modulo 5) and a root at 4104 *)
-Definition ex_spawns (p : N) : list (N * bool) :=
-  if N.eqb p 8 then [(4096, false); (4104, true)]%N else [].
+   far, home colliding modulo 5), a temporary at 4112 that it deletes at once, and a root at 4104 *)
+Definition ex_spawns (p : N) : list dact :=
+  if N.eqb p 8 then [DSpawn 4096 false; DTemp 4112 false; DSpawn 4104 true]%N else [].
 Definition ex_d : dtors := mkD ex_owns ex_spawns [8; 16; 24]%N.
 
 Lemma ex_d_ok : dtors_ok ex_d.
@@ -1427,7 +1481,7 @@ Proof.
   - intros q t. unfold ex_d, ex_owns; simpl. destruct (N.eqb q 8); [simpl; intuition|].
     destruct (N.eqb q 16); simpl; intuition.
   - intros q p r. unfold ex_d, ex_spawns; simpl. destruct (N.eqb q 8); simpl; [|tauto].
-    intros [H|[H|[]]]; injection H as <- <-; intuition discriminate.
+    intros [H|[H|[H|[]]]]; injection H as <- <-; intuition discriminate.
 Qed.
 
 Definition ex_ops : list op :=
